@@ -9,7 +9,9 @@ LEVEL = 'exploration'
 RULE = ('runtime contracts (post-conditions recorded, never raising) on TseitinTransformation.belief_base_to_cnf / '
         'query_to_cnf, OptimizerRC2.minimal_correction_subsets and the z3 enumerators get_all_xi_i, active while '
         'the REAL operators (System W, lex_inf, c-inference; rc2 with several SAT engines, z3) answer generated '
-        'queries, so hard/soft combinations are exactly those that arise. (a) every produced clause set + every '
+        'queries, so hard/soft combinations are exactly those that arise; a share of the cases repeats the run '
+        'with a budget that expires at the k-th clock observation (an enumeration may raise, what it returns is '
+        'judged). (a) every produced clause set + every '
         'complete assignment of the atoms is judged by an own DPLL and must be satisfiable iff the assignment '
         'verifies / falsifies / does not falsify the conditional (formulas to depth 3, Top/Bottom, repeated atoms, '
         'tautologies); EXHAUSTIVE part: all conditionals (B|A) with A, B of depth <= 1 over {a,b,Top,Bottom}. '
@@ -110,6 +112,35 @@ def run_case(case):
                     if type(e).__name__ == 'SoftTimeout':
                         raise
                     res['inconclusive'].append('%s/%s raised %s: %s' % (system, p, type(e).__name__, str(e)[:100]))
+            if rng.random() < 0.15:
+                # the same enumerations under a budget that runs out at the k-th look at the clock (logical
+                # clock, vf/instrument.py): an enumeration may give up by raising, but whatever it RETURNS is
+                # still judged by the contracts - a truncated family returned as if it were complete is caught
+                from .. import instrument
+                dl = instrument.DeadlineFaults()
+                dl.install()
+                try:
+                    system, p = rng.choice(plan)
+                    budget = rng.choice([dict(total_timeout=1000), dict(inference_timeout=1000),
+                                         dict(total_timeout=1000, preprocessing_timeout=400)])
+                    dl.arm(None)
+                    try:
+                        impl.ask(impl.mk_bb(sig, conds), system, p, impl.mk_queries(qs), weakly=weakly, **budget)
+                    except Exception as e:
+                        if type(e).__name__ == 'SoftTimeout':
+                            raise
+                    n = dl.count
+                    for k in sorted(rng.sample(range(1, n + 1), min(n, 6))):
+                        dl.arm(k)
+                        contracts.LOG.bump('runs_with_budget_expiring_at_kth_observation')
+                        try:
+                            impl.ask(impl.mk_bb(sig, conds), system, p, impl.mk_queries(qs), weakly=weakly, **budget)
+                        except Exception as e:
+                            if type(e).__name__ == 'SoftTimeout':
+                                raise
+                            contracts.LOG.bump('budget_expiry_raised')
+                finally:
+                    dl.uninstall()
             res['sample'] = {'kind': 'operators', 'base': base_desc(sig, conds), 'engine': eng,
                              'mode': 'extended' if weakly else 'strict',
                              'queries': [fml.cond_text(*q) for q in qs[:3]],
